@@ -13,7 +13,8 @@ import vlib, lang, factlib, ugen
 from vlib import tlc, expect_holds, ToolError
 
 LEVEL = "model_checking"
-TIERS = {"quick": dict(queries=1500, syntax=500), "thorough": dict(queries=6000, syntax=6000)}
+TIERS = {"quick": dict(queries=1500, syntax=500, syntax_n=2), "thorough": dict(queries=6000, syntax=6000, syntax_n=3)}
+NAMES = {"EACUTE": "é", "EMSP": "\u2003", "DEG": "°"}
 # characters of the strings whose syntax dump is compared (as C12's alphabet)
 WIDE = list("0019.eE+-*/^%(){}, \t atomkZ'_\"=#x") + ["°", "é", "日", "😀", "\u00a0", "\u2003", "μ", "Ω", "\n", "to", " to ", "**", "1.5", "round(", "{a b}"]
 
@@ -131,8 +132,15 @@ def syntax_dumps(chk, rnd, queries, p, np_, sp_):
     """`any --syntax`: the dump must be the tree Parser.tla builds from Lexer.tla's tokens (Syntax.tla), followed by the
     results as in default mode.  The dump is not part of C19's statement: a different dump is reported as drift; the
     result lines behind it are C19's."""
-    qs = [q for k, q in enumerate(queries) if k % 4 == 0][:p["syntax"] // 2]
-    while len(qs) < p["syntax"]:
+    # every string up to a length over one representative per character class, from the model
+    cfg = lang.mc_cfg(os.path.join(vlib.workdir("c19-cfg"), "syntax.cfg"), consts=dict(lang.PARSER_REPAIRED, N=p["syntax_n"], Emit="TRUE"), fac=None,
+                      invariants=["DumpCoversInput", "EmitInv"])
+    t = tlc("MC_Syntax", cfg, workers=4, timeout=1800)
+    expect_holds(t, "MC_Syntax")
+    chk.model("MC_Syntax N=%d" % p["syntax_n"], t, "every string over 22 class representatives: the dump covers the input; strings emitted for the binary")
+    qs = ["".join(NAMES.get(c, c) for c in v["src"]) for tag, v in t.vecs]
+    qs += [q for k, q in enumerate(queries) if k % 4 == 0][:p["syntax"] // 2]
+    for _ in range(p["syntax"] // 2):
         qs.append("".join(rnd.choice(WIDE) for _ in range(rnd.randint(1, 24))))
     qs += ["", " ", "(1)(2)", "2 (3)", "1 +", "((1)", "a \"b\" \\ c", "1\t+\n2", "\r", "\x0b1", "{speed of light} / 2", "f(1,,2)", "1 to", "'"]
     w = vlib.workdir("c19-syntax")
